@@ -88,7 +88,13 @@ func TestVerifC06APIRecordings(t *testing.T) {
 			addConf(tr.Names[0])
 		}
 
-		sock := filepath.Join(tr.Base, "s")
+		// a unix socket path is limited to ~100 bytes: keep it out of the (deep) work directory
+		sockDir, err := os.MkdirTemp("/tmp", "c06s-")
+		if err != nil {
+			t.Fatalf("VERIF-INCONCLUSIVE: socket dir: %v", err)
+		}
+		defer os.RemoveAll(sockDir)
+		sock := filepath.Join(sockDir, "s")
 		a := &API{
 			Address:      "unix://" + sock,
 			ReadTimeout:  conf.Duration(10 * time.Second),
